@@ -297,7 +297,7 @@ pub fn check_transcript_lines(lines: &[String], root: &Pos, ctx: &str, acc: &mut
                     acc.violation(format!("C18|mate0|{}", tag), format!("{}: 'mate 0': {:?}", root.to_fen(), l), case.clone());
                 }
                 match parse_mv(&info.pv[0]) {
-                    Some(m) if legal.iter().any(|x| x.from == m.from && x.to == m.to) => {}
+                    Some(m) if legal.iter().any(|x| x.from == m.from && x.to == m.to && (m.promo.is_none() || m.promo == x.promo)) => {}
                     _ => acc.violation(format!("C18|pv|{}", tag), format!("{}: first PV move {} is not legal in the searched position: {:?}", root.to_fen(), info.pv[0], l), case.clone()),
                 }
                 if let Some((d, prev)) = last_key {
@@ -505,6 +505,96 @@ pub fn c10_blackbox(run: &mut Run, lost: &[Pos]) {
                     format!("C10|missed-draw-bb|{}|n{}|d{}", base.to_fen(), n, d),
                     format!("real binary, {} after {} shuffle cycles: {} leads to a position that occurred {} times, yet completed depth {} ends with a negative score: {:?}", base.to_fen(), n, cyc[0], n, d, l),
                     json!({"kind": "session", "property": "C10", "script": [hist.command(), g.args]}),
+                );
+            }
+        }
+        acc
+    });
+    for a in res {
+        run.acc.merge(a, &[]);
+    }
+    // part c on the plain binary: `go` after `go`. The history ends with the winning side to move
+    // and a single legal reply; the engine plays it, and the second `go` (no new `position`) is
+    // asked of the lost side, which can step into a position that occurred twice in the game the
+    // `position` command described. The record given by that command is still the game's record.
+    let n_c = tier.pick(24usize, 240);
+    let res = run_parallel(8, n_c, |j| {
+        let mut acc = Acc::new();
+        let mut rng = Rng::stream(seed, 0xC10_C000 + j as u64);
+        let mut found = None;
+        for _ in 0..60_000 {
+            if let Some(x) = super::c10::forced_reply_cycle(&mut rng) {
+                found = Some(x);
+                break;
+            }
+        }
+        let (c, cyc) = match found {
+            Some(x) => x,
+            None => {
+                acc.count("forced_reply_cycle_not_found", 1);
+                return acc;
+            }
+        };
+        // C D A B C D A B : every position twice, X to move with one legal reply
+        let mut moves = Vec::new();
+        let mut p = c.clone();
+        for i in 0..7 {
+            let m = cyc[i % 4];
+            moves.push(m);
+            p = apply(&p, m);
+        }
+        let hist = History { start: c.clone(), moves, end: p.clone() };
+        let forced = cyc[3];
+        let mut s = match Sess::start(&plain, SpawnOpts::default(), false) {
+            Ok(s) => s,
+            Err(e) => {
+                acc.inconclusive.push(format!("session start failed: {}", e));
+                return acc;
+            }
+        };
+        s.position(&hist);
+        let first_args = if rng.chance(1, 2) { String::new() } else { slice_args(p.stm, 5 + rng.below(20) as u32, &mut rng) };
+        let mut g1 = s.go(&first_args, WATCHDOG);
+        let ans = match &g1.bestmove {
+            Some((t, _)) => t.clone(),
+            None => {
+                acc.inconclusive.push("C10 go-after-go: first go not answered".into());
+                return acc;
+            }
+        };
+        s.settle(&mut g1, WATCHDOG);
+        if parse_mv(&ans) != Some(forced) {
+            // not this property's business (C03 judges answers)
+            acc.count("first_answer_not_the_only_legal_move_handed_to_C03", 1);
+            return acc;
+        }
+        let after = apply(&p, forced);
+        let mut g = s.go(&slice_args(after.stm, 40, &mut rng), WATCHDOG);
+        if g.bestmove.is_none() {
+            acc.inconclusive.push("C10 go-after-go: second go not answered".into());
+            return acc;
+        }
+        s.settle(&mut g, WATCHDOG);
+        acc.evaluations += 1;
+        acc.distinct.insert(hash64(&format!("gogo|{}", hist.command())));
+        acc.feature("go_after_go_target_occurred_2x");
+        if j == 0 {
+            acc.sample(json!({"go_after_go": {"position": hist.command(), "forced_reply": forced.to_string(), "second_go": g.args, "last_info": g.info_lines.last()}}));
+        }
+        let mut last: HashMap<u64, (i64, String)> = HashMap::new();
+        let mut maxd = 0;
+        for l in &g.info_lines {
+            if let Ok(i) = parse_info(l, true) {
+                maxd = maxd.max(i.depth);
+                last.insert(i.depth, (score_key(&i.score), l.clone()));
+            }
+        }
+        for (d, (sc, l)) in &last {
+            if *d < maxd && *sc < 0 {
+                acc.violation(
+                    format!("C10|missed-draw-go-after-go|{}|d{}", c.to_fen(), d),
+                    format!("real binary: after '{}', a first go answered with the only legal move {} and a second go without a new position, {} leads to a position that occurred twice in the described game, yet completed depth {} ends with a negative score: {:?}", truncate(&hist.command(), 200), forced, cyc[0], d, l),
+                    json!({"kind": "session", "property": "C10", "script": [hist.command(), format!("go {}", first_args).trim().to_string(), g.args]}),
                 );
             }
         }
